@@ -718,3 +718,138 @@ Proof.
     intros v r Hsv. cbv beta. rewrite Hsv, Hv. reflexivity.
 Qed.
 End Generic2.
+
+(* ---- parse_rdata: every type, both syntaxes ---------------------------------------------------------------------------------------- *)
+
+Lemma rdata_ok_inv o p class type dc d p3 : rdata_ok o p class type dc d = Some p3 ->
+  N.of_nat (length (rdata_wire d)) <= 65535 /\ rdata_fits class type d = true /\
+  ((exists cs fs, dc = DFields cs /\ d = AFields fs /\ fields_ok o true false p cs fs = Some p3) \/
+   (exists s0 s1 ic ws, dc = DGeneric s0 s1 ic ws /\ generic_ok p s0 s1 ic ws (rdata_wire d) p3)).
+Proof.
+  unfold rdata_ok. destruct (rdata_fits class type d) eqn:Ef; [|discriminate]. cbn [andb].
+  destruct (N.of_nat (length (rdata_wire d)) <=? 65535) eqn:El; [|discriminate]. apply N.leb_le in El.
+  intros H. split; [exact El|]. split; [reflexivity|]. destruct dc as [cs|s0 s1 ic ws].
+  - destruct d as [fs|data]; [|discriminate]. left. eauto.
+  - right. exists s0, s1, ic, ws. split; [reflexivity|]. unfold generic_ok.
+    destruct (sep_ok p false s0) as [p0|] eqn:E0; [|discriminate]. destruct (sep_ok p0 false s1) as [p1|] eqn:E1; [|discriminate].
+    destruct (uint_ok 65535 ic _) eqn:Eu; [|discriminate]. exists p0, p1. repeat split; auto.
+Qed.
+
+Lemma good_name_of ls : good_labels ls -> good_name (name_of ls).
+Proof. intros H. exists ls. auto. Qed.
+
+Lemma value_name ls : value_ok (VName ls) = true -> good_labels ls.
+Proof. apply good_labels_b_spec. Qed.
+
+Lemma value_str s : value_ok (VStr s) = true -> (length s <= 255)%nat.
+Proof. cbn [value_ok]. intros H. apply andb_true_iff in H. destruct H as [H _]. apply Nat.leb_le. exact H. Qed.
+
+Lemma flat_sbe16_len : forall l : list N, length (flat_map sbe16 l) = (2 * length l)%nat.
+Proof. induction l as [|g l IH]; [reflexivity|]. cbn [flat_map]. rewrite app_length, IH. change (length (sbe16 g)) with 2%nat. cbn [length]. lia. Qed.
+
+Lemma txt_valid fs : fs <> [] -> Forall is_str fs -> forallb value_ok fs = true -> validate_as_txt (flat_map field_wire fs) = Ok true.
+Proof.
+  intros Hne Hall Hv.
+  assert (Hlens : Forall (fun f => forall s, f = VStr s -> (length s <= 255)%nat) fs).
+  { apply Forall_forall. intros f Hf s ->. rewrite forallb_forall in Hv. apply value_str. apply Hv. exact Hf. }
+  rewrite <- (concat_chunks fs Hall Hlens). apply ok_txt.
+  - apply Forall_forall. intros c Hc. apply in_map_iff in Hc. destruct Hc as (f & <- & Hf).
+    rewrite Forall_forall in Hall, Hlens. destruct (Hall f Hf) as [s ->]. exists s. split; [apply (Hlens _ Hf s eq_refl)|reflexivity].
+  - destruct fs; [congruence|discriminate].
+Qed.
+
+Ltac inv_kinds H fs :=
+  repeat (destruct fs as [|?f fs]; [try discriminate H|destruct f; try discriminate H];
+          cbn [map kind_of kinds_eqb fkind_eqb andb] in H).
+
+Ltac split_values Hv := cbn [forallb] in Hv; repeat (apply andb_true_iff in Hv; destruct Hv as [?Hv Hv]).
+
+Theorem rdata_runs x class type dc d e p p3 : sctx_good x ->
+  rdata_ok (x_origin x) p class type dc d = Some p3 -> eol_ok p3 e = true ->
+  runs (eoft (e_term e)) (parse_rdata (ctx_of x) class type) (render_rdata dc d ++ render_eol e) p false (rdata_wire d).
+Proof.
+  intros Hx H He. apply rdata_ok_inv in H. destruct H as (Hlen & Hfit & Hform).
+  unfold parse_rdata. unfold in_types, name_rdata_types, TYPE_NS, TYPE_MD, TYPE_MF, TYPE_CNAME, TYPE_MB, TYPE_MG, TYPE_MR, TYPE_PTR,
+    TYPE_A, TYPE_SOA, TYPE_WKS, TYPE_HINFO, TYPE_MINFO, TYPE_MX, TYPE_TXT, TYPE_AAAA, TYPE_SRV, CLASS_IN, CLASS_CH.
+  change (existsb (N.eqb type) [2; 3; 4; 5; 7; 8; 9; 12]) with (existsb (N.eqb type) name_types).
+  unfold rdata_fits, fields_fit, rform_of in Hfit.
+  destruct (existsb (N.eqb type) name_types) eqn:E1.
+  { destruct d as [fs|data]; [|rewrite andb_false_r in Hfit; discriminate Hfit]. apply andb_true_iff in Hfit. destruct Hfit as [Hv Hk].
+    inv_kinds Hk fs. split_values Hv. pose proof (value_name _ Hv0) as Hg.
+    destruct Hform as [(cs & fs' & -> & [= <-] & Hok)|(z0 & z1 & ic & ws & -> & Hgen)].
+    - eapply name_rdata_runs; eassumption.
+    - eapply (validated_runs e); [exact Hgen|exact He|]. cbn [rdata_wire flat_map field_wire]. rewrite app_nil_r. apply vname_all_wire. exact Hg. }
+  destruct ((type =? 1) && (class =? 1)) eqn:E2.
+  { destruct d as [fs|data]; [|rewrite andb_false_r in Hfit; discriminate Hfit]. apply andb_true_iff in Hfit. destruct Hfit as [Hv Hk].
+    inv_kinds Hk fs.
+    destruct Hform as [(cs & fs' & -> & [= <-] & Hok)|(z0 & z1 & ic & ws & -> & Hgen)].
+    - eapply in_a_runs; eassumption.
+    - eapply (validated_runs e); [exact Hgen|exact He|]. reflexivity. }
+  destruct ((type =? 1) && (class =? 3)) eqn:E3.
+  { destruct d as [fs|data]; [|rewrite andb_false_r in Hfit; discriminate Hfit]. apply andb_true_iff in Hfit. destruct Hfit as [Hv Hk].
+    inv_kinds Hk fs. split_values Hv. pose proof (value_name _ Hv0) as Hg.
+    destruct Hform as [(cs & fs' & -> & [= <-] & Hok)|(z0 & z1 & ic & ws & -> & Hgen)].
+    - eapply ch_a_runs; eassumption.
+    - eapply (validated_runs e); [exact Hgen|exact He|]. cbn [rdata_wire flat_map field_wire]. rewrite app_nil_r.
+      apply (ok_ch_a (name_of ls) n). apply good_name_of. exact Hg. }
+  destruct (type =? 6) eqn:E4.
+  { destruct d as [fs|data]; [|rewrite andb_false_r in Hfit; discriminate Hfit]. apply andb_true_iff in Hfit. destruct Hfit as [Hv Hk].
+    inv_kinds Hk fs. split_values Hv. pose proof (value_name _ Hv0) as Hg1. pose proof (value_name _ Hv1) as Hg2.
+    destruct Hform as [(cs & fs' & -> & [= <-] & Hok)|(z0 & z1 & ic & ws & -> & Hgen)].
+    - eapply soa_runs; eassumption.
+    - eapply (validated_runs e); [exact Hgen|exact He|]. cbn [rdata_wire flat_map field_wire].
+      apply (ok_soa (name_of ls) (name_of ls0)); [apply good_name_of; exact Hg1|apply good_name_of; exact Hg2|reflexivity]. }
+  destruct ((type =? 11) && (class =? 1)) eqn:EW.
+  { exfalso. apply andb_true_iff in EW. destruct EW as [Et Ec]. apply N.eqb_eq in Et, Ec. subst type class.
+    destruct d as [fs|data]; cbn in Hfit; [apply andb_true_iff in Hfit; destruct Hfit as [_ Hfit]|]; discriminate. }
+  destruct (type =? 13) eqn:E5.
+  { destruct d as [fs|data]; [|rewrite andb_false_r in Hfit; discriminate Hfit]. apply andb_true_iff in Hfit. destruct Hfit as [Hv Hk].
+    inv_kinds Hk fs. split_values Hv. pose proof (value_str _ Hv0) as L1. pose proof (value_str _ Hv1) as L2.
+    destruct Hform as [(cs & fs' & -> & [= <-] & Hok)|(z0 & z1 & ic & ws & -> & Hgen)].
+    - eapply hinfo_runs; eassumption.
+    - eapply (validated_runs e); [exact Hgen|exact He|]. cbn [rdata_wire flat_map field_wire]. rewrite app_nil_r.
+      rewrite <- (chunk_wire s L1), <- (chunk_wire s0 L2). apply (ok_hinfo s s0); assumption. }
+  destruct (type =? 14) eqn:E6.
+  { destruct d as [fs|data]; [|rewrite andb_false_r in Hfit; discriminate Hfit]. apply andb_true_iff in Hfit. destruct Hfit as [Hv Hk].
+    inv_kinds Hk fs. split_values Hv. pose proof (value_name _ Hv0) as Hg1. pose proof (value_name _ Hv1) as Hg2.
+    destruct Hform as [(cs & fs' & -> & [= <-] & Hok)|(z0 & z1 & ic & ws & -> & Hgen)].
+    - eapply minfo_runs; eassumption.
+    - eapply (validated_runs e); [exact Hgen|exact He|]. cbn [rdata_wire flat_map field_wire]. rewrite app_nil_r.
+      apply (ok_minfo (name_of ls) (name_of ls0)); apply good_name_of; assumption. }
+  destruct (type =? 15) eqn:E7.
+  { destruct d as [fs|data]; [|rewrite andb_false_r in Hfit; discriminate Hfit]. apply andb_true_iff in Hfit. destruct Hfit as [Hv Hk].
+    inv_kinds Hk fs. split_values Hv. pose proof (value_name _ Hv1) as Hg.
+    destruct Hform as [(cs & fs' & -> & [= <-] & Hok)|(z0 & z1 & ic & ws & -> & Hgen)].
+    - eapply mx_runs; eassumption.
+    - eapply (validated_runs e); [exact Hgen|exact He|]. cbn [rdata_wire flat_map field_wire]. rewrite app_nil_r.
+      apply (ok_mx n (name_of ls)). apply good_name_of. exact Hg. }
+  destruct (type =? 16) eqn:E8.
+  { destruct d as [fs|data]; [|rewrite andb_false_r in Hfit; discriminate Hfit]. apply andb_true_iff in Hfit. destruct Hfit as [Hv Hk].
+    apply andb_true_iff in Hk. destruct Hk as [Hne Hstr].
+    assert (Hall : Forall is_str fs).
+    { apply Forall_forall. intros f Hf. rewrite forallb_forall in Hstr. specialize (Hstr f Hf). destruct f; try discriminate Hstr. eexists. reflexivity. }
+    destruct fs as [|f fs]; [discriminate Hne|].
+    destruct Hform as [(cs & fs' & -> & [= <-] & Hok)|(z0 & z1 & ic & ws & -> & Hgen)].
+    - eapply txt_runs; eassumption.
+    - eapply (validated_runs e); [exact Hgen|exact He|]. apply txt_valid; [discriminate|exact Hall|exact Hv]. }
+  destruct ((type =? 28) && (class =? 1)) eqn:E9.
+  { destruct d as [fs|data]; [|rewrite andb_false_r in Hfit; discriminate Hfit]. apply andb_true_iff in Hfit. destruct Hfit as [Hv Hk].
+    inv_kinds Hk fs. split_values Hv.
+    destruct Hform as [(cs & fs' & -> & [= <-] & Hok)|(z0 & z1 & ic & ws & -> & Hgen)].
+    - eapply in_aaaa_runs; eassumption.
+    - eapply (validated_runs e); [exact Hgen|exact He|]. cbn [rdata_wire flat_map field_wire]. rewrite app_nil_r.
+      unfold validate_as_in_aaaa. rewrite flat_sbe16_len. cbn [value_ok] in Hv0. apply andb_true_iff in Hv0. destruct Hv0 as [L _].
+      apply Nat.eqb_eq in L. rewrite L. reflexivity. }
+  destruct ((type =? 33) && (class =? 1)) eqn:E10.
+  { destruct d as [fs|data]; [|rewrite andb_false_r in Hfit; discriminate Hfit]. apply andb_true_iff in Hfit. destruct Hfit as [Hv Hk].
+    inv_kinds Hk fs. split_values Hv. pose proof (value_name _ Hv3) as Hg.
+    destruct Hform as [(cs & fs' & -> & [= <-] & Hok)|(z0 & z1 & ic & ws & -> & Hgen)].
+    - eapply srv_runs; eassumption.
+    - eapply (validated_runs e); [exact Hgen|exact He|]. cbn [rdata_wire flat_map field_wire]. rewrite app_nil_r.
+      apply (ok_srv n n0 n1 (name_of ls)). apply good_name_of. exact Hg. }
+  (* no syntax of its own *)
+  destruct d as [fs|data].
+  { apply andb_true_iff in Hfit. destruct Hfit as [_ Hfit]. discriminate. }
+  destruct Hform as [(cs & fs' & -> & Hd & _)|(z0 & z1 & ic & ws & -> & Hgen)]; [discriminate|].
+  eapply (unknown_runs e); eassumption.
+Qed.
